@@ -19,7 +19,14 @@ func LeftRotate(left, right value.Value) error {
 	}
 	lv := value.Unwrap[*value.Integer](left)
 	rv := value.Unwrap[*value.Integer](right)
-	v := (lv.Value << rv.Value) | (lv.Value >> (64 - rv.Value))
+	if rv.Value < 0 {
+		return errors.WithStack(
+			fmt.Errorf("rotate count must not be negative for rotate-left operator, right=%d", rv.Value),
+		)
+	}
+	// INTEGER is 64 bits wide so that rotate count is taken modulo 64
+	n := rv.Value % 64
+	v := (lv.Value << n) | (lv.Value >> (64 - n))
 	if int64(v) > int64(math.MaxInt64) {
 		lv.Value = 0
 		lv.IsPositiveInf = true
@@ -40,7 +47,14 @@ func RightRotate(left, right value.Value) error {
 	}
 	lv := value.Unwrap[*value.Integer](left)
 	rv := value.Unwrap[*value.Integer](right)
-	v := (lv.Value >> rv.Value) | (lv.Value << (64 - rv.Value))
+	if rv.Value < 0 {
+		return errors.WithStack(
+			fmt.Errorf("rotate count must not be negative for rotate-right operator, right=%d", rv.Value),
+		)
+	}
+	// INTEGER is 64 bits wide so that rotate count is taken modulo 64
+	n := rv.Value % 64
+	v := (lv.Value >> n) | (lv.Value << (64 - n))
 	if int64(v) > int64(math.MaxInt64) {
 		lv.Value = 0
 		lv.IsPositiveInf = true
